@@ -34,6 +34,9 @@ def handle : List String → Option String
         | some j => some s!"map f{j}"
         | none => some "map none"
       | _ => some "map err"
+  | ["lower", n] => do
+    let v ← n.toNat?
+    some (toString (lower v.toUInt8).toNat)
   | ["keypath", ns] => do
     let names ← parseNames ns
     some (if eligible names then "bitmap" else "map")
